@@ -1,3 +1,218 @@
-import PeptVerif.Model.ModBuilder
-import PeptVerif.Spec.ModBuilder
-/-! # C13 — property theorems (being written) -/
+import PeptVerif.Lemmas.ModBuilder
+/-!
+# C13 — static and variable modification builders produce exactly the intended forms
+
+Property theorems only. The left-hand sides are the models of `apply_static_mods` / `apply_variable_mods`
+(`Model/ModBuilder.lean`, the code after repair c2a4986); `StaticSpec`, `staticTable`, `staticOffers`, `specVariable`,
+`specForms` are the specification (`Spec/ModBuilder.lean`). Rules enter as site lists; the only thing assumed about a
+site list is what the regex matcher guarantees: no position twice (`SitesOK`).
+-/
+namespace Pept
+namespace ModBuilder
+
+/-- no rule lists a position twice (`finditer` yields every start position at most once) -/
+def SitesOK {α : Type} (rules : List (Rule α)) : Prop := ∀ r ∈ rules, r.1.Nodup
+
+/-- the same for a terminal argument; `es` are the sites of the regex `''` used for a bare value -/
+def TermSitesOK {α : Type} (es : List Int) (t : TermIn α) : Prop :=
+  es.Nodup ∧ ∀ rules, t = .dict rules → SitesOK rules
+
+/-- the rule dict `apply_static_mods` works with after `fix_list_of_mods` -/
+def staticInternalRules (internal : Option (List (Rule ModsIn))) : List (Rule (List Mod)) :=
+  (internal.getD []).map fun r => (r.1, fixListOfMods r.2)
+
+/-- the rule dict `apply_variable_mods` works with after `fix_list_of_list_of_mods` / `remove_empty…` -/
+def varInternalRules (internal : Option (List (Rule VarIn))) : List (Rule (List Group)) :=
+  varRules (internal.getD [])
+
+/-! ## static rules -/
+
+/-- C13 (static): the mods at every index `i` (any integer) are the table entry for
+(matched by which rules?, pre-modified?, mode); the same table governs the two termini (position 0 resp. `n-1` has to be
+among the sites of the terminal rule); every other field, the residues included, is unchanged.
+For every annotation, every rule set, all three modes. -/
+theorem static_spec (a : Annotation) (internal : Option (List (Rule ModsIn))) (nterm cterm : TermIn ModsIn)
+    (mode : Mode) (es : List Int) :
+    StaticSpec a (applyStatic a internal nterm cterm mode es)
+      (staticInternalRules internal) (staticTermRules es nterm) (staticTermRules es cterm) mode := by
+  have : applyStatic a internal nterm cterm mode es
+      = applyStaticCore a (staticInternalRules internal) (staticTermRules es nterm) (staticTermRules es cterm) mode := by
+    cases internal <;> rfl
+  rw [this]
+  exact applyStaticCore_spec ..
+
+/-- C13 (static): a residue that no (non-empty) rule matches is untouched, in every mode. -/
+theorem static_unmatched_untouched (a : Annotation) (internal : Option (List (Rule ModsIn)))
+    (nterm cterm : TermIn ModsIn) (mode : Mode) (es : List Int) (i : Int)
+    (h : staticOffers (staticInternalRules internal) i = []) :
+    modsAt (applyStatic a internal nterm cterm mode es) i = modsAt a i := by
+  rw [(static_spec a internal nterm cterm mode es).residues i, h]
+  simp [staticTable]
+
+/-- C13 (static): a matched residue that was unmodified carries exactly the offered mods, in every mode. -/
+theorem static_matched_unmodified (a : Annotation) (internal : Option (List (Rule ModsIn)))
+    (nterm cterm : TermIn ModsIn) (mode : Mode) (es : List Int) (i : Int)
+    (h : staticOffers (staticInternalRules internal) i ≠ []) (hu : modsAt a i = none) :
+    modsAt (applyStatic a internal nterm cterm mode es) i
+      = some (staticOffers (staticInternalRules internal) i).flatten := by
+  rw [(static_spec a internal nterm cterm mode es).residues i, hu]
+  simp [staticTable, h]
+
+/-- C13 (static): applying the same rules a second time in mode skip changes nothing more. -/
+theorem static_skip_idempotent (a : Annotation) (internal : Option (List (Rule ModsIn))) (nterm cterm : TermIn ModsIn)
+    (es : List Int) :
+    applyStatic (applyStatic a internal nterm cterm .skip es) internal nterm cterm .skip es
+      = applyStatic a internal nterm cterm .skip es := by
+  have : ∀ x, applyStatic x internal nterm cterm .skip es
+      = applyStaticCore x (staticInternalRules internal) (staticTermRules es nterm) (staticTermRules es cterm) .skip := by
+    intro x; cases internal <;> rfl
+  rw [this, this]
+  exact applyStaticCore_skip_idem ..
+
+/-- non-vacuity: `apply_static_mods('PEP[1]', {'P': ['phospho'], 'PE': [3]}, nterm_mods='acetyl', mode='append')` -/
+example :
+    let a : Annotation := { seq := "PEP".toList, internal := some [(2, [⟨.int 1, 1⟩])] }
+    let r := applyStatic a (some [([0, 2], .many [⟨.str "phospho".toList, 1⟩]), ([0], .many [⟨.int 3, 1⟩])])
+      (.direct (.one ⟨.str "acetyl".toList, 1⟩)) .none .append [-1, 0, 1, 2]
+    modsAt r 0 = some [⟨.str "phospho".toList, 1⟩, ⟨.int 3, 1⟩] ∧
+    modsAt r 2 = some [⟨.int 1, 1⟩, ⟨.str "phospho".toList, 1⟩] ∧ modsAt r 1 = none ∧
+    r.nterm = some [⟨.str "acetyl".toList, 1⟩] := by decide
+
+/-! ## variable rules -/
+
+theorem applyVariable_eq (a : Annotation) (internal : Option (List (Rule VarIn))) (maxMods : Int)
+    (nterm cterm : TermIn VarIn) (mode : Mode) (es : List Int) :
+    applyVariable a internal maxMods nterm cterm mode es
+      = applyVariableCore a (varInternalRules internal) (varTermRules es nterm) (varTermRules es cterm) maxMods mode := by
+  cases internal <;> rfl
+
+/-- C13 (variable, mode skip), exactness: the returned list is a permutation of the explicit enumeration
+`specForms` = terminal variants × { `T ⊆` unmodified matched residues, `|T| ≤ max_mods`, one offered group per site of `T` }
+– every form of the specification as often as the specification lists it, and nothing else.
+For every annotation (any pre-existing mods), any rule sets, every `max_mods ≥ 0`. -/
+theorem variable_skip_exact (a : Annotation) (internal : Option (List (Rule VarIn))) (maxMods : Int)
+    (nterm cterm : TermIn VarIn) (es : List Int) (h0 : 0 ≤ maxMods)
+    (hi : SitesOK (internal.getD [])) (hn : TermSitesOK es nterm) (hc : TermSitesOK es cterm) :
+    (applyVariable a internal maxMods nterm cterm .skip es).Perm
+      (specVariable a internal maxMods nterm cterm .skip es) := by
+  rw [applyVariable_eq]
+  have : specVariable a internal maxMods nterm cterm .skip es
+      = specForms a (varInternalRules internal) (varTermRules es nterm) (varTermRules es cterm) maxMods := by
+    cases internal <;> rfl
+  rw [this]
+  refine applyVariableCore_skip_perm a _ _ _ maxMods h0 ?_ ?_ ?_
+  · exact fun r hr => (goodRules_varRules _ hi r hr).1
+  · exact goodRules_varTermRules es hn.1 nterm hn.2
+  · exact goodRules_varTermRules es hc.1 cterm hc.2
+
+/-- C13 (variable, mode skip), "exactly once": when the groups offered at each residue are pairwise different, and so
+are the groups offered to the N-terminus and those offered to the C-terminus, no form is returned twice. -/
+theorem variable_skip_nodup (a : Annotation) (internal : Option (List (Rule VarIn))) (maxMods : Int)
+    (nterm cterm : TermIn VarIn) (es : List Int)
+    (hi : SitesOK (internal.getD [])) (hn : TermSitesOK es nterm) (hc : TermSitesOK es cterm)
+    (hd : ∀ j : Int, (offered (varInternalRules internal) j).Nodup)
+    (hdn : (termOffered (varTermRules es nterm) 0).Nodup)
+    (hdc : (termOffered (varTermRules es cterm) ((a.seq.length : Int) - 1)).Nodup) :
+    (applyVariable a internal maxMods nterm cterm .skip es).Nodup := by
+  rw [applyVariable_eq]
+  refine applyVariableCore_nodup a _ _ _ maxMods .skip (fun r hr => (goodRules_varRules _ hi r hr).1)
+    (fun j _ => siteOK_skip _ _ (hd j)) ?_
+  exact variantBases_skip_keys_nodup a _ _ (goodRules_varTermRules es hn.1 nterm hn.2)
+    (goodRules_varTermRules es hc.1 cterm hc.2) hdn hdc
+
+/-- C13 (variable): the input form is among the results — every mode, every `max_mods` (negative ones too). -/
+theorem variable_input_included (a : Annotation) (internal : Option (List (Rule VarIn))) (maxMods : Int)
+    (nterm cterm : TermIn VarIn) (mode : Mode) (es : List Int) :
+    a ∈ applyVariable a internal maxMods nterm cterm mode es := by
+  rw [applyVariable_eq, applyVariableCore_eq]
+  exact List.mem_flatMap.mpr ⟨a, a_mem_variantBases .., varRec_mem_self ..⟩
+
+/-- C13 (variable, every mode – the clauses demanded for append / overwrite): each returned form keeps the residues and
+every field other than terminal / residue mods; a residue's mods are either those of the input or, at an index `0 ≤ j < n`
+matched by a rule, the value `newVal` built from one offered group (in mode skip only where the residue was unmodified);
+a terminus is either as in the input or as `apply_static_mods` sets it for one offered terminal group. -/
+theorem variable_changes_confined (a : Annotation) (internal : Option (List (Rule VarIn))) (maxMods : Int)
+    (nterm cterm : TermIn VarIn) (mode : Mode) (es : List Int) (hi : SitesOK (internal.getD []))
+    (x : Annotation) (hx : x ∈ applyVariable a internal maxMods nterm cterm mode es) :
+    FrameT x a ∧
+    (∀ j : Int, modsAt x j = modsAt a j ∨
+      (0 ≤ j ∧ j < (a.seq.length : Int) ∧ ∃ g ∈ offered (varInternalRules internal) j,
+        ¬(mode = .skip ∧ (modsAt a j).isSome = true) ∧ modsAt x j = some (newVal mode (modsAt a j) g))) ∧
+    (x.nterm = a.nterm ∨ ∃ p ∈ termPairs (varTermRules es nterm),
+      x.nterm = staticTable mode a.nterm (staticOffers [p] 0)) ∧
+    (x.cterm = a.cterm ∨ ∃ p ∈ termPairs (varTermRules es cterm),
+      x.cterm = staticTable mode a.cterm (staticOffers [p] ((a.seq.length : Int) - 1))) := by
+  rw [applyVariable_eq, applyVariableCore_eq] at hx
+  obtain ⟨b, hb, hx⟩ := List.mem_flatMap.mp hx
+  obtain ⟨vn, vc, rfl, h1, h2⟩ := mem_variantBases hb
+  obtain ⟨hf, hj⟩ := variableBuilder_sound _ _ maxMods mode (fun r hr => (goodRules_varRules _ hi r hr).1) x hx
+  refine ⟨hf.toT.trans rfl, hj, ?_, ?_⟩
+  · rw [hf.nterm]; exact h1
+  · rw [hf.cterm]; exact h2
+
+/-- C13 (variable, every mode), "no form twice": if at every matched residue the states it can take (`newVal` for each
+offered group, and the state it has) are pairwise different (`SiteOK`), and the terminal variants that are expanded are
+pairwise different in their terminal mods, then no form is returned twice. -/
+theorem variable_no_form_twice (a : Annotation) (internal : Option (List (Rule VarIn))) (maxMods : Int)
+    (nterm cterm : TermIn VarIn) (mode : Mode) (es : List Int) (hi : SitesOK (internal.getD []))
+    (hok : ∀ j : Int, offered (varInternalRules internal) j ≠ [] →
+      SiteOK mode (modsAt a j) (offered (varInternalRules internal) j))
+    (hterm : ((variantBases mode a (varTermRules es nterm) (varTermRules es cterm)).map tkey).Nodup) :
+    (applyVariable a internal maxMods nterm cterm mode es).Nodup := by
+  rw [applyVariable_eq]
+  exact applyVariableCore_nodup a _ _ _ maxMods mode (fun r hr => (goodRules_varRules _ hi r hr).1) hok hterm
+
+/-- `SiteOK` in mode append: the offered groups are pairwise different (they are never empty after
+`remove_empty_list_of_list_of_mods`). -/
+theorem siteOK_append_of_nodup (a : Annotation) (internal : Option (List (Rule VarIn))) (hi : SitesOK (internal.getD []))
+    (j : Int) (hd : (offered (varInternalRules internal) j).Nodup) :
+    SiteOK .append (modsAt a j) (offered (varInternalRules internal) j) := by
+  refine siteOK_append _ _ hd ?_
+  intro hmem
+  unfold offered at hmem
+  obtain ⟨r, hr, hg⟩ := List.mem_flatMap.mp hmem
+  split at hg
+  · exact (goodRules_varRules _ hi r hr).2 _ hg rfl
+  · cases hg
+
+/-- `SiteOK` in mode overwrite: the offered groups are pairwise different and none equals the mods already there. -/
+theorem siteOK_overwrite_of_nodup (a : Annotation) (internal : Option (List (Rule VarIn)))
+    (j : Int) (hd : (offered (varInternalRules internal) j).Nodup)
+    (hne : ∀ o, modsAt a j = some o → o ∉ offered (varInternalRules internal) j) :
+    SiteOK .overwrite (modsAt a j) (offered (varInternalRules internal) j) :=
+  siteOK_overwrite _ _ hd hne
+
+/-! ### the code before repair c2a4986 -/
+
+/-- `apply_variable_mods('P', {'P': 'x'}, 1, nterm_mods='A', cterm_mods='B')` on the unrepaired code: the form
+`[A]-P[x]-[B]` was returned twice (the C-terminal loop ran over the already expanded N-terminal forms), so
+`variable_skip_nodup` was false for that code. The witness is replayed on the implementation (corpus/C13). -/
+theorem variable_skip_nodup_false_before_repair :
+    ¬ (applyVariableOld { seq := "P".toList } (some [([0], .one ⟨.str "x".toList, 1⟩)]) 1
+        (.direct (.one ⟨.str "A".toList, 1⟩)) (.direct (.one ⟨.str "B".toList, 1⟩)) .skip [-1, 0]).Nodup := by
+  decide
+
+/-- … and with two residues it returned a form with two modified residues for `max_mods = 1`
+(`[A]-P[x]P[x]-[B]`), which is not in `specForms`. -/
+theorem variable_skip_exact_false_before_repair :
+    ∃ x ∈ applyVariableOld { seq := "PP".toList } (some [([0, 1], .one ⟨.str "x".toList, 1⟩)]) 1
+        (.direct (.one ⟨.str "A".toList, 1⟩)) (.direct (.one ⟨.str "B".toList, 1⟩)) .skip [-1, 0, 1],
+      x ∉ specVariable { seq := "PP".toList } (some [([0, 1], .one ⟨.str "x".toList, 1⟩)]) 1
+        (.direct (.one ⟨.str "A".toList, 1⟩)) (.direct (.one ⟨.str "B".toList, 1⟩)) .skip [-1, 0, 1] := by
+  decide
+
+/-- non-vacuity of the hypotheses of `variable_skip_exact` / `variable_skip_nodup`, and the repaired code on the same
+input: 12 forms, no duplicates. -/
+example :
+    let internal : Option (List (Rule VarIn)) := some [([0, 1], .one ⟨.str "x".toList, 1⟩)]
+    SitesOK (internal.getD []) ∧ TermSitesOK [-1, 0, 1] (.direct (.one ⟨.str "A".toList, 1⟩) : TermIn VarIn) ∧
+    (applyVariable { seq := "PP".toList } internal 1
+        (.direct (.one ⟨.str "A".toList, 1⟩)) (.direct (.one ⟨.str "B".toList, 1⟩)) .skip [-1, 0, 1]).length = 12 ∧
+    (applyVariable { seq := "PP".toList } internal 1
+        (.direct (.one ⟨.str "A".toList, 1⟩)) (.direct (.one ⟨.str "B".toList, 1⟩)) .skip [-1, 0, 1]).Nodup := by
+  refine ⟨?_, ⟨by decide, ?_⟩, by decide, by decide⟩
+  · intro r hr; simp at hr; subst hr; decide
+  · intro rules h; cases h
+
+end ModBuilder
+end Pept
